@@ -66,16 +66,16 @@ def run(chk):
     mro = [c.name for c in prog.mro(mol)]
     chk.require(mro[:5] == ["Molecule", "Structure", "CartesianGeometry", "Connectivity", "Promolecule"],
                 f"MRO of Molecule is {mro}: the cooperative chain changed shape")
-    r1_del_atom(chk, cls)
-    r1_add_atom(chk, cls)
-    r1_append_atom(chk, cls)
-    r2_none_flow(chk, cls)
-    r3_who_may_write(chk)
-    r4_parent(chk, cls)
-    r5_views(chk)
-    r6_validate_first(chk, cls)
-    r7_sibling_resolvers(chk, cls)
-    r8_membership(chk, cls)
+    chk.call(r1_del_atom, chk, cls)
+    chk.call(r1_add_atom, chk, cls)
+    chk.call(r1_append_atom, chk, cls)
+    chk.call(r2_none_flow, chk, cls)
+    chk.call(r3_who_may_write, chk)
+    chk.call(r4_parent, chk, cls)
+    chk.call(r5_views, chk)
+    chk.call(r6_validate_first, chk, cls)
+    chk.call(r7_sibling_resolvers, chk, cls)
+    chk.call(r8_membership, chk, cls)
 
 
 def _super_calls(fn, name):
